@@ -179,8 +179,9 @@ def rule_grammar(repo, rule):
                 eqs.append((fi, c))
     # reader branches
     handled = {}
+    from ..flatten import resolutions as _rs0
     for n in ast.walk(qs.node):
-        if isinstance(n, ast.If) and isinstance(n.test, ast.Compare) and norm(n.test.left) == "toks[0]" \
+        if isinstance(n, ast.If) and isinstance(n.test, ast.Compare) and "toks[0]" in _rs0(qs.node, n.test.left) \
                 and isinstance(n.test.comparators[0], ast.Constant):
             tag = n.test.comparators[0].value
             idx = [x.slice.value for b in n.body for x in ast.walk(b) if isinstance(x, ast.Subscript)
@@ -204,6 +205,24 @@ def rule_grammar(repo, rule):
             else:
                 rule.ok(where, fi.fq, "%s: %d fixed fields%s written; reader uses up to toks[%d]%s" % (
                     tag, nf, " + list" if var else "", mx, " + slice" if sl else ""))
+    # equation lines: the context check of contextualize() must see ALL tokens of the line (one function context per equation)
+    ctx_calls = [c for c in ast.walk(qs.node) if isinstance(c, ast.Call) and norm(c.func).split(".")[-1] == "contextualize" and c.args]
+    in_tag = set()
+    for tag, (n, _mx, _sl) in handled.items():
+        for b in n.body:
+            for x in ast.walk(b):
+                in_tag.add(id(x))
+    eq_calls = [c for c in ctx_calls if id(c) not in in_tag]
+    if not eq_calls:
+        rule.violation(qs.loc(), qs.fq, "no contextualize() call for equation lines", "equations are not split into function contexts",
+                       "grammar/eq/context")
+    for c in eq_calls:
+        if "toks" in _rs0(qs.node, c.args[0]):
+            rule.ok(qs.loc(c), qs.fq, norm(c), "the whole equation line goes through one context-consistency check")
+        else:
+            rule.violation(qs.loc(c), qs.fq, norm(c), "only part of an equation line is checked for context consistency: an equation "
+                           "that mixes wires of two function contexts is no longer reported and is filed under one of them",
+                           "grammar/eq/context-part")
     for tag in sorted(handled):
         if tag not in written:
             rule.note(qs.loc(handled[tag][0]), qs.fq, tag, "handled by the reader but never written by the backend")
@@ -287,10 +306,34 @@ def rule_glue(repo, rule):
     sub = m.functions.get("subqap.subqap_.subqap__")
     if sub is None:
         raise AnalysisError("subqap__ not found")
-    closures = {n: f for n, f in sub.children.items()}
+    # the copy helpers are whatever callables subqap__ hands to for_each_in: nested closures, module-level functions,
+    # or bound methods `obj.meth` of a local collector object `obj = C()`
+    closures = {}
+    selfmap = {}
+    for n in ast.walk(sub.node):
+        if isinstance(n, ast.Call) and norm(n.func) == "for_each_in" and len(n.args) == 3:
+            ref = n.args[1]
+            if isinstance(ref, ast.Name):
+                f = sub.children.get(ref.id)
+                if f is None:
+                    b = m.bindings.get(ref.id)
+                    f = b[1] if b and b[0] == "def" else None
+                if f is not None:
+                    closures[norm(ref)] = f
+            elif isinstance(ref, ast.Attribute) and isinstance(ref.value, ast.Name):
+                ctor = [a for a in ast.walk(sub.node) if isinstance(a, ast.Assign) and len(a.targets) == 1 and norm(a.targets[0]) == ref.value.id
+                        and isinstance(a.value, ast.Call) and isinstance(a.value.func, ast.Name) and a.value.func.id in m.classes]
+                if len(ctor) == 1:
+                    f = m.classes[ctor[0].value.func.id].methods.get(ref.attr)
+                    if f is not None and f.params:
+                        closures[norm(ref)] = f
+                        selfmap[norm(ref)] = (f.params[0], ref.value.id)
+    for name, f in sub.children.items():
+        closures.setdefault(name, f)
     info = {}
     for name, f in closures.items():
-        p = f.params[0] if f.params else None
+        ps = f.params[1:] if name in selfmap else f.params
+        p = ps[0] if ps else None
         alloc = [n for n in ast.walk(f.node) if isinstance(n, ast.Assign) and isinstance(n.value, ast.Call)
                  and norm(n.value.func).endswith("PrivVal")]
         app = [c for c in ast.walk(f.node) if isinstance(c, ast.Call) and norm(c.func).endswith(".append") and c.args
@@ -301,7 +344,10 @@ def rule_glue(repo, rule):
         same_val = a.value.args and norm(a.value.args[0]) == "%s.value" % p
         ret = norm(a.targets[0])
         order = tuple(norm(e) for e in app[0].args[0].elts)
-        info[name] = (f, p, ret, order, same_val, norm(app[0].func.value))
+        lst = norm(app[0].func.value)
+        if name in selfmap and lst.startswith(selfmap[name][0] + "."):
+            lst = selfmap[name][1] + lst[len(selfmap[name][0]):]      # self.pairs is <obj>.pairs at the call site
+        info[name] = (f, p, ret, order, same_val, lst)
         if same_val:
             rule.ok(f.loc(), f.fq, norm(a), "copy is hinted with the original's value")
         else:
@@ -403,7 +449,11 @@ def rule_glue(repo, rule):
             rule.violation(vg.loc(), vg.fq, str(ctx_assign), "blocks are not declared in their own contexts with the context "
                            "restored afterwards", "glue/ctx")
         gw = [c for c in writes_in(vg.node, "qape") if c.args and isinstance(c.args[0], ast.Constant) and c.args[0].value == "[glue]"]
-        if gw and [norm(a) for a in gw[0].args[1:]] == [c1, norm(decl[0].args[0]), c2, norm(decl[1].args[0])]:
+        from ..flatten import resolve_locals as _rl
+
+        def cp(e):
+            return norm(_rl(vg.node, e, copies_only=True))
+        if gw and [cp(a) for a in gw[0].args[1:]] == [c1, cp(decl[0].args[0]), c2, cp(decl[1].args[0])]:
             rule.ok(vg.loc(gw[0]), vg.fq, norm(gw[0])[:90])
         else:
             rule.violation(vg.loc(), vg.fq, norm(gw[0]) if gw else "none", "[glue] record does not name (ctx1, block1, ctx2, block2)",
@@ -495,20 +545,78 @@ def rule_digest(repo, rule):
         rule.violation(qh.loc(), qh.fq, norm(qh.node.body)[:100], "digest does not cover every line", "digest/lines")
 
 
+def rule_members(repo, rule):
+    """The block lists exactly the members it was given, in order: every re-binding of the member list inside
+    vc_declare_block is an element-wise map (same length, same order); the [ioblock] record and the return value use it."""
+    vdb = repo.fn(QB, "vc_declare_block")
+    members = vdb.params[1] if len(vdb.params) > 1 else None
+    if members is None:
+        raise AnalysisError("vc_declare_block has no member-list parameter")
+    ok = True
+    n = 0
+    for a in ast.walk(vdb.node):
+        tg = []
+        if isinstance(a, ast.Assign):
+            tg = a.targets
+        elif isinstance(a, ast.AugAssign):
+            tg = [a.target]
+        if not any(isinstance(t, ast.Name) and t.id == members for t in tg):
+            if isinstance(a, ast.Call) and isinstance(a.func, ast.Attribute) and norm(a.func.value) == members \
+                    and a.func.attr in ("remove", "pop", "clear", "sort", "reverse", "insert", "append", "extend"):
+                rule.violation(vdb.loc(a), vdb.fq, norm(a), "the member list of a block is changed in place", "members/mutate")
+                ok = False
+            continue
+        n += 1
+        v = a.value
+        elementwise = False
+        if isinstance(v, ast.ListComp) and len(v.generators) == 1 and not v.generators[0].ifs and norm(v.generators[0].iter) == members:
+            elementwise = True
+        if isinstance(v, ast.Call) and norm(v.func) == "list" and len(v.args) == 1 and isinstance(v.args[0], ast.Call) \
+                and norm(v.args[0].func) == "map" and len(v.args[0].args) == 2 and norm(v.args[0].args[1]) == members:
+            elementwise = True
+        if elementwise:
+            rule.ok(vdb.loc(a), vdb.fq, norm(a)[:90], "element-wise map: same members, same order")
+        else:
+            rule.violation(vdb.loc(a), vdb.fq, norm(a)[:100], "the member list is rebuilt in a way that can drop, merge or reorder members: "
+                           "paired blocks of a sub-circuit call then no longer line up member by member", "members/rebuild")
+            ok = False
+    rec = [c for c in writes_in(vdb.node, "qape") if c.args and isinstance(c.args[0], ast.Constant) and c.args[0].value == "[ioblock]"]
+    if rec and any(isinstance(x, (ast.ListComp, ast.GeneratorExp)) and norm(x.generators[0].iter) == members and not x.generators[0].ifs
+                   for x in ast.walk(rec[0])):
+        rule.ok(vdb.loc(rec[0]), vdb.fq, norm(rec[0])[:90], "[ioblock] lists every member")
+    else:
+        rule.violation(vdb.loc(), vdb.fq, norm(rec[0])[:90] if rec else "no [ioblock] record", "the [ioblock] record does not list every member "
+                       "of the block", "members/record")
+
+
 def rule_unit(repo, rule):
     vdb = repo.fn(QB, "vc_declare_block")
-    es = vdb.children.get("ensure_single")
+    m = repo.module(QB)
+    es = None
+    members = vdb.params[1] if len(vdb.params) > 1 else None
+    for n in ast.walk(vdb.node):
+        # vcs = [F(x) for x in vcs] : F is applied to every block member
+        if isinstance(n, ast.ListComp) and len(n.generators) == 1 and norm(n.generators[0].iter) == members \
+                and isinstance(n.elt, ast.Call) and isinstance(n.elt.func, ast.Name) and len(n.elt.args) == 1 \
+                and norm(n.elt.args[0]) == norm(n.generators[0].target):
+            es = vdb.children.get(n.elt.func.id)
+            if es is None:
+                b = m.bindings.get(n.elt.func.id)
+                es = b[1] if b and b[0] == "def" else None
+    if es is None:
+        es = vdb.children.get("ensure_single")
     if es is None:
         rule.undecided(vdb.loc(), vdb.fq, "ensure_single", "helper not found")
         return
     x = es.params[0]
+    from ..flatten import resolve_locals as _rl
     # the record lists  x.lc.sig[0][1]  (the *name* of the single term): which expression is written?
     uses_name_only = any("sig[0][1]" in norm(c) for c in writes_in(vdb.node, "qape"))
     bypass = [n for n in es.node.body if isinstance(n, ast.If) and any(isinstance(b, ast.Return) and norm(b.value) == x for b in n.body)]
     if not bypass:
         rule.ok(es.loc(), es.fq, "no bypass: every member is re-allocated and tied by assert_eq")
         return
-    t = bypass[0].test
+    t = _rl(es.node, bypass[0].test)
     conj = t.values if isinstance(t, ast.BoolOp) and isinstance(t.op, ast.And) else [t]
     txts = [norm(c).replace(" ", "") for c in conj]
     has_len = any(c in ("len(%s.lc.sig)==1" % x, "1==len(%s.lc.sig)" % x) for c in txts)
@@ -562,5 +670,10 @@ def check(repo, rep, tier):
     rule_unique_names(repo, r8)
     r6 = rep.rule("R-C12-6", "inconsistent function bodies are reported", floor=3)
     rule_digest(repo, r6)
+    r10 = rep.rule("R-C12-10", "records shared through tables are keyed by the value itself, never by hash(value)", floor=2)
+    from .hashkeys import rule_no_hash_keys
+    rule_no_hash_keys(repo, r10, (QB, QS))
+    r9 = rep.rule("R-C12-9", "a block lists exactly the members it is given, in order", floor=2)
+    rule_members(repo, r9)
     r7 = rep.rule("R-C12-7", "block members are unit wires", floor=2)
     rule_unit(repo, r7)
